@@ -38,6 +38,7 @@ UNIT = {
         dict(cls='dd_edge', name='getElemLong', file=D, loops=2, fires={'R1': 5}),
         dict(cls='dd_edge', name='getElemInt', file=D, loops=2, fires={'R1': 5}),
     ],
+    'replay_full_library': True, 'replay_link': ['-lgmp'],
     'stubs': [
         'forest::getForestWithID / isIndexSet / getDomain / isForRelations / getNumVariables, minterm::getDomain / isForRelations: return ghost values',
         'unpacked_node::New/Recycle: one scratch node object',
